@@ -3,8 +3,8 @@
 package bwrun
 
 import (
-	"path"
 	"fmt"
+	"path"
 	"sort"
 	"strings"
 
@@ -255,11 +255,16 @@ func (w *world) splitSource(t string) (int, string, bool) {
 		} else if strings.Contains(s, "?") {
 			continue
 		}
-		if s == p.Base {
-			return pi, "", true
-		}
-		if strings.HasPrefix(s, p.Base+"//") {
-			return pi, s[len(p.Base)+2:], true
+		for _, base := range []string{p.Base, p.AltBase} {
+			if base == "" {
+				continue
+			}
+			if s == base {
+				return pi, "", true
+			}
+			if strings.HasPrefix(s, base+"//") {
+				return pi, s[len(base)+2:], true
+			}
 		}
 	}
 	return 0, "", false
